@@ -23,7 +23,7 @@ SETTINGS = [None, 'noq', 'wo8a_cw', 'wo8s_tw', 'wo4s_cw', 'drq8_cw', 'drq8_tw', 
 
 
 def plan(tier):
-  return {'n_cases': 900 if tier == 'quick' else 18000, 'shards': 16}
+  return {'n_cases': 900 if tier == 'quick' else 36000, 'shards': 16}
 
 
 def setup(ctx):
